@@ -174,6 +174,20 @@ type Conn struct {
 	SvcID    uint64
 	ServeErr error
 	Escaped  interface{} // panic that escaped handleConnection (process death in production)
+	eof      *eofConn    // transport wrapper of DialOpt(eofWithData), if any
+}
+
+// HalfClose ends the client's sending direction only (as shutdown(SHUT_WR) on a
+// TCP socket does): the broker reads the bytes written so far and then the end
+// of the stream - from the same Read call if they arrive together - while what
+// it writes still reaches the client. Only for connections dialled with
+// DialOpt(name, true); reports whether it was done.
+func (c *Conn) HalfClose() bool {
+	if c.eof == nil {
+		return false
+	}
+	c.eof.halfClose()
+	return true
 }
 
 // Served waits until the server side finished its connect handling.
@@ -276,6 +290,35 @@ func (u userPass) Authenticate(id string, cred interface{}) error {
 	return auth.ErrAuthFailure
 }
 
+// gateAuth accepts every user whose password is "pass" and calls the installed
+// hook first (the harness may hold the calling connection handler inside it).
+type gateAuth struct{}
+
+var authGateHook atomic.Value // func(user string)
+
+func (gateAuth) Authenticate(id string, cred interface{}) error {
+	if h, _ := authGateHook.Load().(func(string)); h != nil {
+		h(id)
+	}
+	if p, ok := cred.(string); ok && p == "pass" {
+		return nil
+	}
+	return auth.ErrAuthFailure
+}
+
+// AuthGate is the name of the authenticator that accepts every user with the
+// password "pass" and calls the hook set by SetAuthHook first.
+const AuthGate = "verifGateAuth"
+
+// SetAuthHook installs (nil: removes) the function the AuthGate authenticator
+// calls with the user name before it decides.
+func SetAuthHook(f func(user string)) {
+	if f == nil {
+		f = func(string) {}
+	}
+	authGateHook.Store(f)
+}
+
 var authOnce sync.Once
 
 // AuthUserPass is the name of the authenticator accepting only ("user","pass").
@@ -286,7 +329,10 @@ const AuthUserPass = "verifUserPass"
 func New(bufSize int64, authName string) (*Broker, error) {
 	regMu.Lock()
 	defer regMu.Unlock()
-	authOnce.Do(func() { auth.Register(AuthUserPass, userPass{"user", "pass"}) })
+	authOnce.Do(func() {
+		auth.Register(AuthUserPass, userPass{"user", "pass"})
+		auth.Register(AuthGate, gateAuth{})
+	})
 	name := fmt.Sprintf("verif-%d", atomic.AddInt64(&seq, 1))
 	gate := &gateProvider{Provider: topics.NewMemProvider()}
 	topics.Register(name, gate)
@@ -325,6 +371,9 @@ type eofConn struct {
 	cur  []byte
 	err  error
 	next *eofChunk
+
+	half     chan struct{}
+	halfOnce sync.Once
 }
 
 type eofChunk struct {
@@ -333,12 +382,16 @@ type eofChunk struct {
 }
 
 func newEOFConn(c net.Conn) *eofConn {
-	e := &eofConn{Conn: c, ch: make(chan eofChunk, 4)}
+	e := &eofConn{Conn: c, ch: make(chan eofChunk, 4), half: make(chan struct{})}
 	go func() {
 		for {
 			buf := make([]byte, 8192)
 			n, err := c.Read(buf)
-			e.ch <- eofChunk{buf[:n], err}
+			select {
+			case e.ch <- eofChunk{buf[:n], err}:
+			case <-e.half:
+				return // the stream was ended by halfClose; nothing is delivered after it
+			}
 			if err != nil {
 				close(e.ch)
 				return
@@ -346,6 +399,19 @@ func newEOFConn(c net.Conn) *eofConn {
 		}
 	}()
 	return e
+}
+
+// halfClose queues the end of the stream behind the bytes written so far (a
+// pipe Write returns when the pump goroutine has taken the bytes, and the pump
+// queues them before it reads on).
+func (e *eofConn) halfClose() {
+	e.halfOnce.Do(func() {
+		select {
+		case e.ch <- eofChunk{nil, io.EOF}:
+		case <-time.After(10 * time.Second):
+		}
+		close(e.half)
+	})
 }
 
 // SetReadDeadline forwards the deadline to the pipe but never fails: net.Pipe
@@ -415,8 +481,10 @@ func (b *Broker) DialStalled(name string) *Conn { return b.dial(name, false, tru
 func (b *Broker) dial(name string, eofWithData, stalled bool) *Conn {
 	cli, srvPipe := net.Pipe()
 	var srv net.Conn = srvPipe
+	var eof *eofConn
 	if eofWithData {
-		srv = newEOFConn(srvPipe)
+		eof = newEOFConn(srvPipe)
+		srv = eof
 	}
 	if len(b.Seg) > 0 || b.Reset {
 		srv = &segConn{Conn: srv, seg: append([]int(nil), b.Seg...), reset: b.Reset}
@@ -427,7 +495,7 @@ func (b *Broker) dial(name string, eofWithData, stalled bool) *Conn {
 	} else {
 		wc = wire.New(name, cli)
 	}
-	c := &Conn{Client: wc, B: b, served: make(chan struct{})}
+	c := &Conn{Client: wc, B: b, served: make(chan struct{}), eof: eof}
 	b.mu.Lock()
 	b.conns = append(b.conns, c)
 	b.mu.Unlock()
